@@ -90,7 +90,7 @@ def mc(name, quick=True, **kw):
 
 
 MC = {
-    "C01": [mc("MC_Line")], "C02": [mc("MC_Line")], "C03": [mc("MC_Line"), mc("MC_Args")], "C04": [mc("MC_Args"), mc("MC_FnNum", module="MC_Fn", function_level=True)], "C05": [mc("MC_Args"), mc("MC_FnBuf", module="MC_Fn", function_level=True)],
+    "C01": [mc("MC_Line")], "C02": [mc("MC_Line"), mc("MC_Line7", module="MC_Line", quick=False, cfg="MC_Line7", cfg_thorough="MC_Line7")], "C03": [mc("MC_Line"), mc("MC_Args")], "C04": [mc("MC_Args"), mc("MC_FnNum", module="MC_Fn", function_level=True)], "C05": [mc("MC_Args"), mc("MC_FnBuf", module="MC_Fn", function_level=True)],
     "C06": [mc("MC_Line")], "C07": [mc("MC_FnNum", module="MC_Fn", function_level=True), mc("MC_FnBuf", module="MC_Fn", function_level=True)], "C08": [mc("MC_Args"), mc("MC_FnBuf", module="MC_Fn", function_level=True)], "C09": [mc("MC_Flags")], "C10": [mc("MC_Codes"), mc("MC_Ext", quick=False)],
     "C11": [mc("MC_Sched")], "C12": [mc("MC_Sched")], "C13": [mc("MC_Ring"), mc("MC_Sched"), mc("MC_Ext"), {"name": "Apalache_CatRing", "apalache": True, "quick": True}], "C14": [mc("MC_Hold"), mc("MC_HoldNest", module="MC_Hold", quick=False, cfg="MC_HoldNest", cfg_thorough="MC_HoldNest")],
     "C15": [mc("MC_Live"), mc("MC_Sched", quick=False)], "C16": [mc("MC_Mutex")], "C17": [mc("MC_Threads", module="CatThreads")], "C18": [mc("MC_Sched"), mc("MC_Hold")],
@@ -110,11 +110,11 @@ def _c(text, note=_N, technique=_T):
 
 
 CLAIMS = {
-    "C01": _c("MC_Line: all input streams of <= 5 (thorough 7) bytes over a 9-symbol alphabet against 5 tables, NoBad + AckAfterLF. Executions: general corpus and the prefix x suffix x registration-order sweep; the monitor accounts for every consumed byte and every result code (pending line, read-ahead, stray code)."),
-    "C02": _c("LineOutcome (declarative name resolution and suffix rule, CatOracle) is compared by TLC with the handler events of CatImpl for all inputs of MC_Line and with those of the real code over random tables, the prefix sweep, bit-lane tables of 4..64 commands and the case-fold family; even while the monitor is otherwise lost, a handler must belong to the last consumed line."),
+    "C01": _c("MC_Line: all input streams of <= 5 (thorough 6; 7 on the implicit-write and equal-ignoring-case tables) bytes over a 9-symbol alphabet against 6 tables, NoBad + AckAfterLF. Executions: general corpus and the prefix x suffix x registration-order sweep; the monitor accounts for every consumed byte and every result code (pending line, read-ahead, stray code)."),
+    "C02": _c("LineOutcome (declarative name resolution and suffix rule, CatOracle) is compared by TLC with the handler events of CatImpl for all inputs of MC_Line and with those of the real code over random tables, the prefix sweep, bit-lane tables of 4..64 commands, the case-fold family and tables whose names are equal ignoring case in every registration order and implicit-write mask; even while the monitor is otherwise lost, a handler must belong to the last consumed line."),
     "C03": _c("Model: BoundsOk (every store index inside its buffer half) in MC_Line / MC_Args at capacities 6..10. Executions: every family runs on an ASan+UBSan build with canaries around both buffers and every variable and a byte-compare of the idle machine's buffer half; capacity-boundary, exact-fit match-bit and argument-length families.",
               "the specification decides index arithmetic and half isolation; other undefined behaviour (signed overflow, misaligned access) is observed by the sanitizers on the executions the specification generates - the sanitizer is the observer there"),
-    "C04": _c("DecodeVar (digit-sequence arithmetic, no machine integers) predicts acceptance and stored value; MC_Args explores argument texts over a 10-symbol alphabet with callbacks failing; executions cover boundary and adversarial digit strings up to the buffer capacity and beyond 2^64 for every type x width x access x position."),
+    "C04": _c("DecodeVar (digit-sequence arithmetic, no machine integers) predicts acceptance and stored value; MC_Args explores argument texts over a 10-symbol alphabet with callbacks failing; executions cover boundary and adversarial digit strings up to the buffer capacity and beyond 2^64 for every type x width x access x position, and every byte value 1..255 at every position of an argument."),
     "C05": _c("BufHexLoop / StrLoop transcribe the decoders with their stores; MC_Args explores string and hex-buffer texts for the three access modes; executions cover data_size 1..64 with decoded lengths data_size-1, data_size, data_size+1 through the plain, escape and terminator paths; canaries catch any byte at or beyond data_size."),
     "C06": _c("The monitor compares the arguments seen inside every handler (bytes, length, NUL, parsed count, true capacity) with the bytes of the line / the oracle text; MC_Line at capacities 6..8; executions with argument lengths capacity-2 .. capacity+1 and 3 x capacity over all byte values, shared and separate event buffer."),
     "C07": _c("Literal round trip on the real code (harness op roundtrip: AT<c>? then AT<c>=<that text>): the monitor requires OK and no change of any variable; all 256 patterns of the 8-bit types, slices of the 16-bit ones, random and boundary 32-bit values, buffers and strings (full-length, escapes at both ends) of size 1..64 in mixed lists; READ text is also predicted by ReadVarText."),
@@ -122,8 +122,8 @@ CLAIMS = {
     "C09": _c("MC_Flags: all toggle histories (<= 2, thorough 3) of command / group disable and only_test between lines; executions: random toggle histories between lines with every lookup path (exact, abbreviation, implicit write, '=?', list); LineOutcome is evaluated with the current flags."),
     "C10": _c("MC_Codes: every return code (9 codes, -2, 9) at every handler invocation of all four kinds in both machines with buffer edits and failing variable callbacks; executions: scripted code sequences of length <= 13 with data edits and variable changes between calls; the monitor is the table-driven interpreter of the code table."),
     "C11": _c("MC_Sched: every readiness schedule with triggers and queries at any point (FlushMutex + unit matcher); executions: heavy back-pressure with disjoint command sets for lines and events; the matcher attributes every accepted byte to an owed unit of exactly one producer."),
-    "C12": _c("MC_Sched explores all schedules against schedule-independent predictions; executions: the same scenario under the eager and three other schedules, each judged by the monitors, plus a literal comparison of output bytes and handler invocations between schedule twins (lines only)."),
-    "C13": _c("MC_Ring: unbounded trigger / service / query histories for capacities 1..3 (finite state space), RingOk; executions: long histories for capacities 1,2,3,8 with the non-locking observers queried after every call; the monitor keeps the abstract queue with an uncertainty window for unobservable pops."),
+    "C12": _c("MC_Sched explores all schedules against schedule-independent predictions; executions: the same scenario under the eager and three other schedules, each judged by the monitors; a contradiction that only a non-eager twin shows is a violation (stimuli sit at schedule-independent points); plus a literal comparison of output bytes and handler invocations between schedule twins (lines only)."),
+    "C13": _c("MC_Ring: unbounded trigger / service / query histories for capacities 1..3 (finite state space), RingOk; every transition of that graph is replayed on the real code (edge cover); MC_Ext: descriptors that are not registered in the table; executions: long histories for capacities 1,2,3,8 with the non-locking observers queried after every call; the monitor keeps the abstract queue with an uncertainty window for unobservable pops."),
     "C14": _c("MC_Hold: hold from every handler kind, release by API or event handler at any point, spurious and repeated requests, queued second line; executions: fam_hold with input offsets at every read."),
     "C15": _c("MC_Live: under weak fairness of cat_service, once the stimulus budgets are spent the call eventually reports OK (no state constraint); safety: OK only when nothing is owed and a repeated call is a stutter - judged on every execution by the settle epilogue; events failing at once in every queue position."),
     "C16": _c("MC_Mutex: lock and unlock results are environment choices for all locking functions; executions: lock / unlock failing at the k-th invocation along histories that reach every return code of every handler kind in both machines; in-callback snapshots of the object show that nothing changes outside the bracket."),
